@@ -20,10 +20,10 @@ import (
 func TestVerif(t *testing.T) {
 	verifsim.Main(t, verifsim.Unit{
 		Name: "L.log", Props: []string{"C20"}, Run: runLog,
-		Rule:    "one case = seeded interval + history of (message, dt) with messages from a 3-letter alphabet issued through Print and through Printf (same format with different arguments, different formats with equal results) and dt in {0, 1ns, interval-1ns, interval, interval+1ns, random}; output captured after every call and compared with R-log; non-trivial = at least one suppressed and one re-printed repeat; distinct = interval class + decision string",
-		Measure: "c20 = (dt class of the arrival, same as last printed, printed)",
-		Real:    []string{"loglimiter.LogLimiter (Print, Printf)", "standard log package writing to a captured buffer"},
-		Stub:    []string{"clock (nowFunc replaced in-package by a simulated forward-only clock)"},
+		Rule:        "one case = seeded interval + history of (message, dt) with messages from a 3-letter alphabet issued through Print and through Printf (same format with different arguments, different formats with equal results) and dt in {0, 1ns, interval-1ns, interval, interval+1ns, random}; output captured after every call and compared with R-log; non-trivial = at least one suppressed and one re-printed repeat; distinct = interval class + decision string",
+		Measure:     "c20 = (dt class of the arrival, same as last printed, printed)",
+		Real:        []string{"loglimiter.LogLimiter (Print, Printf)", "standard log package writing to a captured buffer"},
+		Stub:        []string{"clock (nowFunc replaced in-package by a simulated forward-only clock)"},
 		Assumptions: []string{"time only moves forward (production subtracts time.Time values that carry a monotonic reading)"},
 	})
 }
